@@ -54,7 +54,12 @@ pub(super) mod message {
         type Error = anyhow::Error;
 
         fn try_from(value: InboundIn) -> Result<Self, Self::Error> {
-            if let InboundIn::RelayUdp(c, a) = value { Ok((c, a.to_socket_addr()?)) } else { bail!("expect relay tcp message") }
+            // (a name has been resolved by then, see `with_resolved_address`: this conversion runs on the worker thread)
+            match value {
+                InboundIn::RelayUdp(c, Address::Socket(a)) => Ok((c, a)),
+                InboundIn::RelayUdp(_, a) => bail!("unresolved address {a}"),
+                _ => bail!("expect relay tcp message"),
+            }
         }
     }
 
@@ -147,7 +152,7 @@ where
 {
     match inbound_stream.next().await {
         Some(Ok(InboundIn::ConnectTcp(msg, addr))) => {
-            if let Ok(resolved_addr) = addr.to_socket_addr() {
+            if let Ok(resolved_addr) = addr.resolve().await {
                 match TcpStream::connect(resolved_addr).await {
                     Err(e) => error!("[*-tcp] connect failed: peer={}/{}; error={}", addr, resolved_addr, e),
                     Ok(outbound) => {
@@ -187,7 +192,26 @@ where
     St: Stream<Item = Result<InboundIn, anyhow::Error>> + Unpin,
 {
     let (outbound_sink, outbound_stream) = UdpFramed::new(outbound, BytesCodec).split();
+    let first = with_resolved_address(first).await;
+    let inbound_stream = Box::pin(inbound_stream.then(|r| async {
+        match r {
+            Ok(msg) => Ok(with_resolved_address(msg).await),
+            Err(e) => Err(e),
+        }
+    }));
     relay_bidirectional(inbound_sink, inbound_stream, outbound_sink, outbound_stream, first).await
+}
+
+/// A datagram for a name gets the name's address here, where waiting for the resolver holds up this flow only; a name
+/// that does not resolve stays as it is and is refused by the conversion into the outbound item.
+async fn with_resolved_address(msg: InboundIn) -> InboundIn {
+    match msg {
+        InboundIn::RelayUdp(content, addr @ Address::Domain(..)) => match addr.resolve().await {
+            Ok(resolved) => InboundIn::RelayUdp(content, resolved.into()),
+            Err(_) => InboundIn::RelayUdp(content, addr),
+        },
+        other => other,
+    }
 }
 
 async fn relay_bidirectional<ISink, IStream, O, OSink, OStream>(
